@@ -231,17 +231,38 @@ Definition srv_tick (producer : bool) (st : option step) : list frame * bool :=
    init raises: a complete error stream, then serve_one RETURNS (the server is back at the top of serve()).
    declared header: its own IPC stream carrying the buffered init logs first (sink flush), then the header.
    no header: the buffered init logs open the output stream. *)
-Definition srv_init (sp : stream_prog) (h : bool) : list frame * bool :=
+(* Implementation faults (since repo commit 735475d they are validated INSIDE the init try of _serve_stream and answered
+   like any other init error: TypeError error stream, serve_one returns):
+     InitBadReturn          -> "Method '<m>' must return a Stream, got int"   (the interpreter returns the int 17)
+     declared header = None -> "Method '<m>' declares header type but returned header=None"
+   <m> is the interpreter service's method name: producer / producer_h / exchange / exchange_h. *)
+Definition TypeError := s "TypeError".
+Definition method_name (exch h : bool) : str :=
+  (if exch then s "exchange" else s "producer") ++ (if h then s "_h" else []).
+Definition bad_return_exn (exch h : bool) : exn :=
+  {| cls := TypeError; emsg := s "Method '" ++ method_name exch h ++ s "' must return a Stream, got int"; kind := None |}.
+Definition no_header_exn (exch h : bool) : exn :=
+  {| cls := TypeError; emsg := s "Method '" ++ method_name exch h ++ s "' declares header type but returned header=None"; kind := None |}.
+(* the init outcome as the socket server answers it: faults become init errors *)
+Definition init_outcome (exch : bool) (sp : stream_prog) (h : bool) : option exn :=
   match ires sp with
-  | InitRaise e => ([FErr e; FEos], false)
-  | InitBadReturn => ([], false)
-  | InitOk =>
+  | InitRaise e => Some e
+  | InitBadReturn => Some (bad_return_exn exch h)
+  | InitOk => if h then match hdr sp with Some _ => None | None => Some (no_header_exn exch h) end else None
+  end.
+
+Definition srv_init_for (exch : bool) (sp : stream_prog) (h : bool) : list frame * bool :=
+  match init_outcome exch sp h with
+  | Some e => ([FErr e; FEos], false)
+  | None =>
       if h then match hdr sp with
                 | Some v => (map FLog (ilogs sp) ++ [FHdr v; FEos], true)
-                | None => ([], false)               (* TypeError escapes serve(): the serve loop dies *)
+                | None => ([], false)               (* unreachable: init_outcome answered it *)
                 end
       else (map FLog (ilogs sp), true)
   end.
+(* kept for callers written against the first version of this file: producer method names *)
+Definition srv_init (sp : stream_prog) (h : bool) : list frame * bool := srv_init_for false sp h.
 
 (* client session state after the scripted reads *)
 Inductive sess := Live (q : list frame) (alive : bool) | Over.
@@ -282,9 +303,9 @@ Definition pipe_after (c : cb) (a : after) (z : sess) : list event :=
   | _, _ => []
   end.
 
-Definition pipe_stream (sp : stream_prog) (h : bool) (c : cb) (a : after)
+Definition pipe_stream_for (exch : bool) (sp : stream_prog) (h : bool) (c : cb) (a : after)
            (body : bool -> list frame -> list event * sess) : list event :=
-  let '(q0, alive) := srv_init sp h in
+  let '(q0, alive) := srv_init_for exch sp h in
   if h then
     (* _read_stream_header at call time *)
     let '(es, o, r) := cli_read c q0 in
@@ -295,6 +316,7 @@ Definition pipe_stream (sp : stream_prog) (h : bool) (c : cb) (a : after)
     end
   else
     let '(es', z) := body alive q0 in es' ++ pipe_after c a z.
+Definition pipe_stream := pipe_stream_for false.
 
 (* terminal events end the observation *)
 Definition terminal (e : event) : bool := match e with EError _ _ | ECbRaised | EBlocked => true | _ => false end.
@@ -305,14 +327,16 @@ Definition run_pipe (p : prog) (sc : script) : list event :=
   cut
   match p, sc with
   | PUnary u, SUnary c =>
-      (* _serve_unary: the sink is switched to direct writing before the method runs *)
+      (* _serve_unary: the sink is switched to direct writing before the method runs.
+         (A raising on_log callback: since repo ba6ac10 _read_unary_response drains the response before re-raising, so the
+         connection stays clean; only the events are modelled here -- [ECbRaised].) *)
       let fs := map FLog (ulogs u) ++ [match ures_of u with UOk v => FData {| rows := 1; tag := Z.to_N v; meta := [] |} | URaise e => FErr e end; FEos] in
       let '(es, o, _) := cli_read c fs in
       match o, ures_of u with RdData _, UOk v => es ++ [EResult v] | RdFail e, _ => es ++ [e] | _, _ => es end
   | PStream sp, SIter h k a c =>
-      pipe_stream sp h c a (fun alive q => pipe_prod c alive (steps sp) (match a with AStop => None | _ => Some k end) q)
+      pipe_stream_for false sp h c a (fun alive q => pipe_prod c alive (steps sp) (match a with AStop => None | _ => Some k end) q)
   | PStream sp, SExch h n a c =>
-      pipe_stream sp h c a (fun alive q => pipe_exch c alive (steps sp) n q)
+      pipe_stream_for true sp h c a (fun alive q => pipe_exch c alive (steps sp) n q)
   | _, _ => []
   end.
 
@@ -385,6 +409,27 @@ Fixpoint http_exch (cfg : httpcfg) (c : cb) (sts : list step) (n : nat) : list e
       end
   end.
 
+(* HTTP answers to implementation faults (unchanged by 735475d, which fixed the socket path only):
+     not a Stream                       -> AttributeError escapes _run_stream_init_sync, Falcon 500 with a JSON body;
+        method without header: the client raises RpcError("HttpError", ...); with header: _read_stream_header feeds the
+        JSON to the IPC reader and a bare pyarrow ArrowInvalid escapes the client API (rendered "client_exc:ArrowInvalid")
+     producer_h with header=None        -> TypeError escapes _run_http_producer_init: same JSON 500, same ArrowInvalid
+     exchange_h with header=None        -> caught by _run_http_exchange_init: a proper TypeError init error *)
+Definition http500_event : event :=
+  EError (s "HttpError") (s "HTTP 500: response is not a valid Arrow IPC stream (first 200 bytes: '{""title"": ""500 Internal Server Error""}')").
+Definition http500_ipc_event : event :=
+  EError (s "client_exc:ArrowInvalid") (s "Expected to read 1769218683 metadata bytes, but only read 34").
+Definition http_fault (exch : bool) (sp : stream_prog) (h : bool) : option event :=
+  match ires sp with
+  | InitRaise _ => None
+  | InitBadReturn => Some (if h then http500_ipc_event else http500_event)
+  | InitOk => if h then match hdr sp with
+                        | Some _ => None
+                        | None => Some (if exch then err_event (no_header_exn true true) else http500_ipc_event)
+                        end
+              else None
+  end.
+
 Definition run_http (cfg : httpcfg) (p : prog) (sc : script) : list event :=
   cut
   match p, sc with
@@ -397,9 +442,9 @@ Definition run_http (cfg : httpcfg) (p : prog) (sc : script) : list event :=
   | PStream sp, SIter h k a c =>
       match ires sp with
       | InitRaise e => [err_event e]                       (* _RpcHttpError: one error stream, sink logs dropped *)
-      | InitBadReturn => [EBlocked]
+      | InitBadReturn => [if h then http500_ipc_event else http500_event]
       | InitOk =>
-          if h && match hdr sp with None => true | _ => false end then [EBlocked] else
+          if h && match hdr sp with None => true | _ => false end then [http500_ipc_event] else
           (* header stream (init logs, header) then the first turn ; without header the init logs open the turn *)
           let turn0 := http_frames cfg (steps sp) 0 (add_sizes cfg (base cfg) (if h then [] else map FLog (ilogs sp))) in
           let '(es, o) := http_parse_init c (map FLog (ilogs sp) ++ turn0) [] in
@@ -412,9 +457,9 @@ Definition run_http (cfg : httpcfg) (p : prog) (sc : script) : list event :=
   | PStream sp, SExch h n a c =>
       match ires sp with
       | InitRaise e => [err_event e]
-      | InitBadReturn => [EBlocked]
+      | InitBadReturn => [if h then http500_ipc_event else http500_event]
       | InitOk =>
-          if h && match hdr sp with None => true | _ => false end then [EBlocked] else
+          if h && match hdr sp with None => true | _ => false end then [err_event (no_header_exn true true)] else
           deliver c (ilogs sp) (hdr_events h sp ++ http_exch cfg c (steps sp) n)
       end
   | _, _ => []
